@@ -14,7 +14,7 @@ CONSTANTS
   ContentSel = {1, 9}
   ProfileSel = {1, 2, 4}
   UseJson = FALSE
-  BoundarySel = {3}
+  BoundarySel = {5}
   PreSel = {1, 3}
   EpiSel = {1, 3}
   FinSel = {TRUE}
@@ -24,6 +24,7 @@ CONSTANTS
   EditVals = {}
   Depth = 0
 INVARIANT ParseOfEncodeIsForm
+INVARIANT QuotedRoundTrip
 INVARIANT LimitsExactAtThreshold
 INVARIANT ContentExact
 INVARIANT SizeFailureSticks
